@@ -45,8 +45,13 @@ def equal_language(live, ref, timeout_ms=20000):
     r = sol.check()
     wit = None
     if r == z3.sat:
-        wit = sol.model()[s].as_string()
+        wit = _unescape(sol.model()[s].as_string())
     return str(r), wit, time.time() - t
+
+
+def _unescape(w):
+    import re
+    return re.sub(r'\\u\{([0-9a-fA-F]+)\}', lambda m: chr(int(m.group(1), 16)), w)
 
 
 def check_datatype_languages():
@@ -65,6 +70,9 @@ def check_datatype_languages():
             out['discharged'] += 1
         elif r == 'sat':
             q['witness'] = wit
+            # a string in one language and not in the other: replayed concretely through the real
+            # converter and the reference model (a violation only if they disagree on it)
+            out.setdefault('replay', []).append(({'dt': name, 'len': len(wit)}, {'s': wit}))
         out['queries'].append(q)
     return out
 
